@@ -81,7 +81,28 @@ def render(hy, tree):
 
 
 def py_repr(tree):
-    return re.sub(r"\s+", " ", repr(tree))
+    """a Python expression that rebuilds the tree (for the replay command)"""
+    import hy
+    m = hy.models
+    if isinstance(tree, m.FComponent):
+        return "hy.models.FComponent([%s], conversion=%r)" % (", ".join(py_repr(c) for c in tree), tree.conversion)
+    if isinstance(tree, m.Sequence):
+        return "hy.models.%s([%s])" % (type(tree).__name__, ", ".join(py_repr(c) for c in tree))
+    if isinstance(tree, m.Symbol):
+        return "hy.models.Symbol(%r, from_parser=True)" % str(tree)
+    if isinstance(tree, m.Keyword):
+        return "hy.models.Keyword(%r, from_parser=True)" % tree.name
+    if isinstance(tree, m.Float):
+        return "hy.models.Float(float(%r))" % repr(float(tree))
+    if isinstance(tree, m.Complex):
+        return "hy.models.Complex(%r)" % complex(tree)
+    if isinstance(tree, m.Integer):
+        return "hy.models.Integer(%r)" % int(tree)
+    if isinstance(tree, m.String):
+        return "hy.models.String(%r)" % str(tree)
+    if isinstance(tree, m.Bytes):
+        return "hy.models.Bytes(%r)" % bytes(tree)
+    return repr(tree)
 
 
 def children(hy, t):
@@ -145,25 +166,106 @@ def shrink(hy, gen, tree, key, budget=250):
     return tree
 
 
-def features(hy, tree):
-    """facts about a (shrunk) tree that the known-finding matchers look at"""
-    m = hy.models
-    f = {"odd_dict": False, "heads": [], "nfkc_constant_symbol": False, "annotated_non_name_target": False}
-    import unicodedata
+from props.valid_gen import AUG, COMPARE  # noqa: E402
 
-    def walk(t, in_quote=False):
-        if isinstance(t, m.Dict) and len(t) % 2 == 1:
-            f["odd_dict"] = True
-        if isinstance(t, m.Symbol) and str(t) not in ("None", "True", "False") and \
-                unicodedata.normalize("NFKC", str(t)) in ("None", "True", "False"):
-            f["nfkc_constant_symbol"] = True
-        if isinstance(t, m.Expression) and t and isinstance(t[0], m.Symbol):
-            f["heads"].append(str(t[0]))
-        if isinstance(t, m.Sequence):
-            for c in t:
-                walk(c)
-    walk(tree)
-    f["heads"] = sorted(set(f["heads"]))
+
+def _walk(hy, t):
+    yield t
+    if isinstance(t, (hy.models.Sequence, list, tuple)):
+        for c in t:
+            yield from _walk(hy, c)
+
+
+def _head(hy, t):
+    m = hy.models
+    if isinstance(t, m.Expression) and t and isinstance(t[0], m.Symbol):
+        return str(t[0])
+    return None
+
+
+def features(hy, tree):
+    """structural facts about a shrunk failing tree (evaluated in the worker, stored with the failure)"""
+    import unicodedata
+    m = hy.models
+    f = {}
+    nodes = list(_walk(hy, tree))
+    is_um = lambda x: _head(hy, x) == "unpack-mapping"  # noqa
+    f["odd_dict"] = any(isinstance(n, m.Dict) and len([c for c in n if not is_um(c)]) % 2 == 1 for n in nodes)
+
+    def misaligned(d):
+        k = 0
+        for c in d:
+            if is_um(c):
+                if k % 2 == 1:
+                    return True
+            else:
+                k += 1
+        return False
+    f["dict_unpack_misaligned"] = any(isinstance(n, m.Dict) and misaligned(n) for n in nodes)
+    aug = set(AUG)
+    f["aug_bad_target"] = any(_head(hy, n) in aug and len(n) >= 2 and
+                              (isinstance(n[1], (m.List, m.Tuple)) or _head(hy, n[1]) == "unpack-iterable") for n in nodes)
+    f["chainc_single"] = any(_head(hy, n) == "chainc" and len(n) == 2 for n in nodes)
+    f["short_or_pattern"] = any(_head(hy, n) == "|" and len(n) <= 2 for n in nodes) and any(_head(hy, n) == "match" for n in nodes)
+    f["import_empty_list"] = any(_head(hy, n) == "import" and any(isinstance(c, m.List) and len(c) == 0 for c in n) for n in nodes)
+
+    def bad_ann_target(x):
+        return isinstance(x, (m.List, m.Tuple)) or _head(hy, x) == "unpack-iterable"
+    f["annotate_bad_target"] = any(_head(hy, n) == "annotate" and len(n) >= 2 and bad_ann_target(n[1]) for n in nodes)
+    f["compare_with_unpack_mapping"] = any((_head(hy, n) in COMPARE or _head(hy, n) == "chainc") and any(is_um(c) for c in n[1:])
+                                           for n in nodes)
+
+    def falsy(x):
+        try:
+            return not x
+        except Exception:
+            return False
+    assert_falsy = any(_head(hy, n) == "assert" and len(n) == 3 and falsy(n[2]) for n in nodes)
+    tp_falsy = any(isinstance(n, m.List) and any(_head(hy, c) == "annotate" and len(c) == 3 and falsy(c[2]) for c in n) for n in nodes)
+    f["falsy_literal_truth_tested"] = assert_falsy or tp_falsy
+    f["star_wildcard"] = any(_head(hy, n) == "unpack-iterable" and len(n) == 2 and n[1] == m.Symbol("_") for n in nodes) \
+        and any(_head(hy, n) == "match" for n in nodes)
+    f["has_nonlocal"] = any(_head(hy, n) == "nonlocal" and len(n) >= 2 for n in nodes)
+    f["bare_unpack_mapping"] = any(_head(hy, n) == "unpack-mapping" and len(n) == 1 for n in nodes)
+    f["dot_pattern_short"] = any(_head(hy, n) == "." and len(n) == 2 for n in nodes) and any(_head(hy, n) == "match" for n in nodes)
+
+    def constant_like(s):
+        return isinstance(s, m.Symbol) and unicodedata.normalize("NFKC", str(s)) in ("None", "True", "False")
+    f["constant_like_name"] = any(constant_like(n) for n in nodes)
+    f["class_pattern_head"] = any(_head(hy, n) == "match" for n in nodes) and any(
+        isinstance(n, m.Expression) and n and (isinstance(n[0], m.Expression) or str(n[0]) in ("None", "True", "False"))
+        for n in nodes) or any(_head(hy, n) == "match" for n in nodes) and any(
+        isinstance(n, m.Expression) and len(n) >= 2 and isinstance(n[1], m.Expression) and n[1] and
+        str(n[1][0]) in ("None", "True", "False", ".") for n in nodes)
+    f["mapping_pattern_in_comprehension"] = any(_head(hy, n) in ("lfor", "sfor", "gfor", "dfor") and
+                                                any(isinstance(x, m.Dict) for x in _walk(hy, n)) and
+                                                any(_head(hy, x) == "match" for x in _walk(hy, n)) for n in nodes)
+    # dynamic: does some sub-form compile, alone, to a Result without expression / to nothing at all?
+    no_expr = empty = False
+    import types
+    import warnings
+    for n in nodes[:60]:
+        if not isinstance(n, m.Expression) or n is tree and False:
+            continue
+        modname = "zq_c10_feat"
+        mod = types.ModuleType(modname)
+        sys.modules[modname] = mod
+        try:
+            with warnings.catch_warnings():
+                warnings.simplefilter("ignore")
+                comp = hy.compiler.HyASTCompiler(mod, filename="<c10>", source="")
+                with comp.scope:
+                    r = comp.compile(n)
+            if r._expr is None:
+                no_expr = True
+                if not r.stmts:
+                    empty = True
+        except BaseException:
+            pass
+        finally:
+            sys.modules.pop(modname, None)
+    f["has_form_without_expr"] = no_expr
+    f["has_empty_form"] = empty
     return f
 
 
